@@ -134,4 +134,22 @@ PROPS["C10"] = {
     "assumptions": TRUSTED[:1],
 }
 
+PROPS["C11"] = {
+    "level": "exploration",
+    "technique": "runtime differential monitor: real StarkConfig::validate vs the property's predicate evaluated over arbitrary-precision integers (three-valued: accept / reject / don't-care), on boundary-value, truncation, consistent-re-declaration and pairwise edits of honest and synthesised configurations",
+    "rule": "seed configs = honest ones (quick: 4 by seed; thorough: all of the build) + 30 / 500 synthesised valid ones; edits: every numeric field <- {0,1,2,4,5,15..21,47..51,128,129,2^16,2^32,2^40,2^63,2^64-1,2^64,2^128,2^250,p-2,p-1,+-1}, every vector truncated to 0/1/len-1 and extended, 9 groups of consistent re-declarations x their value lists (also judged at their own security level), random pairs; security levels exact, +-1, 0, p-1; every case is non-trivial; distinct = distinct (seed config, edit, level)",
+    "legs": [full("config", "config", q=FULL_ONE, t=FULL_SHIPPED)],
+    "required_counters": ["expected_Accept.accepted", "expected_Reject.rejected", "group.blowup_mod_p", "group.fri_input_only"],
+    "assumptions": TRUSTED[:1] + ["constraints the implementation enforces beyond the statement (friendly count of FRI layers, surplus vector elements, 1..=128 column range) are a don't-care region"],
+}
+
+PROPS["C01"] = {
+    "level": "exploration",
+    "technique": "runtime adversarial monitor: a cheating-prover toolkit builds complete forged proofs (constant, AIR-violating trace; honest Merkle openings; real FRI proving of the resulting DEEP function; ground PoW) that cheat in exactly one mechanism each; acceptance by the real StarkProof::verify is the refuting observation; the transcript trace monitor records how far each run got",
+    "rule": "forgeries = (template statement/config of an honest proof of the build, strategy, repetition); strategies S1 bad trace/honest rest, S2 OODS length decoupling (also with a falsified output), S3 FRI domain larger than the evaluation domain, S5 blow-up exponent p-2, S6 zero queries, S8 wrong openings with honest FRI (control), S9 last-layer length, S10 PoW not ground; a forgery is non-trivial when the harness confirmed that the committed constant trace violates the AIR (constraint combination at the OODS point != committed composition); quick: 2 smallest templates per build, thorough: all templates x 3 repetitions",
+    "legs": [full("forge", "forge", t=FULL_SHIPPED, serial=True, timeout={"quick": 1800, "thorough": 14000})],
+    "required_counters": ["attempts.S1 bad-trace-honest-rest", "attempts.S2 oods-length-decoupling", "attempts.S3 fri-domain-larger-than-eval", "attempts.S5 blowup-mod-p", "rejected_by_the_targeted_check"],
+    "assumptions": TRUSTED + ["soundness against all adversaries is out of reach of any runtime monitor: only the implemented attack families are decided", "the forger learns the mask structure by black-box probing of eval_oods_polynomial"],
+}
+
 NOT_APPLICABLE = {}
